@@ -142,7 +142,7 @@ func (c *Ctx) compilerUnproven() (map[string]bool, error) {
 	for _, g := range re.FindAllStringSubmatch(string(out), -1) {
 		m[g[1]+":"+g[2]+":"+g[3]] = true
 	}
-	if err != nil && len(m) == 0 {
+	if err != nil {
 		c.bceErr = fmt.Errorf("go build -gcflags=-d=ssa/check_bce failed: %v: %s", err, strings.TrimSpace(string(out)))
 		return nil, c.bceErr
 	}
